@@ -112,3 +112,400 @@ def sexp(tok):
     if tok.is_group:
         return '( %s%s )' % (type(tok).__name__, ''.join(' ' + sexp(c) for c in tok.tokens))
     return '[ %s%s ]' % (ttname(tok.ttype), (' ' + hexs(tok.value)) if tok.value else '')
+
+
+# --- S-CSL: exhaustive table of StatementSplitter._change_splitlevel ---------------------------
+def csl_cases():
+    """every keyword-typed (ttype, value) the lexer can produce from the dictionaries and multi-word rules, in a few
+    spellings, plus parentheses and some non-keywords, x every flag state"""
+    from sqlparse import lexer, tokens as T
+    lx = lexer.Lexer.get_default_instance()
+    vals = set()
+    for d in lx._keywords:
+        for w, tt in d.items():
+            vals.add((tt, w))
+            vals.add((tt, w.lower()))
+    extra = ['END IF', 'END LOOP', 'END WHILE', 'END FOR', 'END  IF', 'end\tif', 'CREATE OR REPLACE', 'create or replace',
+             'CREATE  OR  REPLACE', 'GO', 'go', 'GO 2', 'ORDER BY', 'GROUP BY', 'UNION ALL', 'LEFT JOIN', 'NOT NULL', 'CASE', 'case',
+             'IN', 'AS', 'FROM', 'VALUES', 'USING', 'BEGIN', 'begin', 'End', 'DECLARE', 'IF', 'FOR', 'WHILE', 'LOOP', 'ſelect', 'ıf', 'IF ']
+    for v in extra:
+        for tt in (T.Keyword, T.Keyword.DDL, T.Keyword.DML, T.Name, T.Keyword.Order):
+            vals.add((tt, v))
+    for v in ('(', ')', ';', ',', '[', 'x'):
+        for tt in (T.Punctuation, T.Name, T.Keyword):
+            vals.add((tt, v))
+    vals.add((T.Keyword.DDL, 'CREATEX'))
+    vals.add((T.Keyword.DDL, 'RECREATE'))
+    out = []
+    for tt, v in sorted(vals, key=lambda x: (tuple(x[0]), x[1])):
+        for ic in (0, 1):
+            for bd in (0, 1, 2):
+                for ica in (0, 1, 2):
+                    out.append((ic, bd, ica, tt, v))
+    return out
+
+
+def s_csl(ctx):
+    from sqlparse.engine import StatementSplitter
+    cases = csl_cases()
+    outs = ctx.model.ask(['csl %d %d %d %s %s' % (ic, bd, ica, ttname(tt), hexs(v)) for ic, bd, ica, tt, v in cases])
+    sp = StatementSplitter()
+    for (ic, bd, ica, tt, v), mo in zip(cases, outs):
+        sp._reset()
+        sp._is_create, sp._begin_depth, sp._in_case = bool(ic), bd, ica
+        try:
+            d = sp._change_splitlevel(tt, v)
+            io = '%d %d %d %d %d' % (d, int(bool(sp._is_create)), sp._begin_depth, int(sp._in_case), int(bool(sp._in_declare)))
+        except Exception as e:
+            io = 'err ' + type(e).__name__
+        ctx.stream('S-CSL', inputs=1, lines=1)
+        if io != mo.strip():
+            ctx.mismatch('S-CSL', [ic, bd, ica, ttname(tt), v], mo, io)
+    ctx.streams['S-CSL']['exhaustive'] = True
+
+
+# --- S-TREE ---------------------------------------------------------------------------------
+TREE_FUEL = 200
+
+
+def impl_tree_line(s):
+    """`sqlparse.parse(s)` in the canonical form of the driver's `parse` command"""
+    import sqlparse
+    try:
+        sts = sqlparse.parse(s)
+        return 'ok' + ''.join(' ' + sexp(st) for st in sts)
+    except RecursionError:
+        return 'err RecursionError'
+    except Exception as e:
+        return 'err ' + type(e).__name__
+
+
+def tree_agree(model_line, impl_line):
+    """equal lines, or both sides report an error (the real code's RecursionError depends on the interpreter's
+    frame limit, the model's on its fuel; `FilterStack.run` turns RecursionError into SQLParseError)"""
+    a, b = model_line.split(), impl_line.split()
+    if a == b:
+        return True
+    return a[:1] == ['err'] and b[:1] == ['err']
+
+
+def s_tree(ctx, inputs, impl_lines=None, fuel=TREE_FUEL):
+    outs = ctx.model.ask(['parse %d %s' % (fuel, hexs(s)) for s in inputs])
+    for i, (s, mo) in enumerate(zip(inputs, outs)):
+        io = impl_lines[i] if impl_lines is not None else impl_tree_line(s)
+        ctx.stream('S-TREE', inputs=1, lines=mo.count('( Statement'))
+        if mo.startswith('err') and hasattr(ctx, 'count'):
+            ctx.count('S-TREE model ' + mo.strip())
+        if not tree_agree(mo, io):
+            a, b = mo.split(), io.split()
+            k = next((j for j, (x, y) in enumerate(zip(a, b)) if x != y), min(len(a), len(b)))
+            ctx.mismatch('S-TREE', s, ' '.join(a[max(0, k - 6):k + 12]), ' '.join(b[max(0, k - 6):k + 12]))
+
+
+# --- S-GROUP: grouping alone (the model's `group` on the real lexer+splitter output) ------------------
+def impl_group_lines(s):
+    """-> list of (flat statement sexp, grouped statement sexp or 'err X') for the statements of `s`"""
+    from sqlparse import lexer
+    from sqlparse.engine import StatementSplitter, grouping
+    out = []
+    try:
+        flat = list(StatementSplitter().process(lexer.tokenize(s)))
+    except Exception:
+        return out
+    for st in flat:
+        before = sexp(st)
+        try:
+            after = 'ok ' + sexp(grouping.group(st))
+        except Exception as e:
+            after = 'err ' + type(e).__name__
+        out.append((before, after))
+    return out
+
+
+def s_group(ctx, inputs, fuel=TREE_FUEL):
+    pairs = []
+    for s in inputs:
+        for before, after in impl_group_lines(s):
+            pairs.append((s, before, after))
+    outs = ctx.model.ask(['group %d %s' % (fuel, before) for _, before, _ in pairs])
+    for (s, before, io), mo in zip(pairs, outs):
+        ctx.stream('S-GROUP', inputs=1, lines=1)
+        if not tree_agree(mo, io):
+            a, b = mo.split(), io.split()
+            k = next((j for j, (x, y) in enumerate(zip(a, b)) if x != y), min(len(a), len(b)))
+            ctx.mismatch('S-GROUP', s, ' '.join(a[max(0, k - 6):k + 12]), ' '.join(b[max(0, k - 6):k + 12]))
+
+
+# =============================================================================================
+# >>> formatting side: S-OPT, S-TOKF, S-TREEF (per statement filter), S-SER, S-CASE
+#     (model: lean/SqlModel/Options.lean, Filters/*.lean, FilterDriver.lean)
+def enc_val(v):
+    """tagged value syntax of the driver's `opt` command"""
+    if v is None:
+        return 'n'
+    if v is True or v is False:
+        return 'b1' if v else 'b0'
+    if isinstance(v, int):
+        return 'i%d' % v
+    if isinstance(v, str):
+        return 's' + '-'.join('%x' % ord(c) for c in v)
+    if isinstance(v, float):
+        if v != v:
+            return 'fnan'
+        if v in (float('inf'), float('-inf')):
+            return 'finf' if v > 0 else 'f-inf'
+        return 'f%d/%d' % v.as_integer_ratio()
+    if isinstance(v, list):
+        return 'l'
+    raise ValueError('value outside the PyVal domain: %r' % (v,))
+
+
+def enc_dict(d):
+    return ';'.join('%s=%s' % (k, enc_val(v)) for k, v in d.items())
+
+
+def canon_stack(stack):
+    def pre(f):
+        n = type(f).__name__
+        if n == 'KeywordCaseFilter':
+            return 'kw:' + f.convert.__name__
+        if n == 'IdentifierCaseFilter':
+            return 'id:' + f.convert.__name__
+        if n == 'TruncateStringFilter':
+            return 'trunc:%d:%s' % (f.width, enc_val(f.char))
+        return '?' + n
+
+    def st(f):
+        n = type(f).__name__
+        b = lambda x: '1' if x else '0'
+        if n == 'SpacesAroundOperatorsFilter':
+            return 'spaces'
+        if n == 'StripCommentsFilter':
+            return 'stripcomments'
+        if n == 'StripWhitespaceFilter':
+            return 'stripws'
+        if n == 'ReindentFilter':
+            return 'reindent:%s:%d:%s:%s:%d:%s:%s' % ('-'.join('%x' % ord(c) for c in f.char), f.width, b(f.indent),
+                                                     b(f.indent_columns), f.wrap_after, b(f.comma_first), b(f.compact))
+        if n == 'AlignedIndentFilter':
+            return 'aligned:' + '-'.join('%x' % ord(c) for c in f.char)
+        if n == 'RightMarginFilter':
+            return 'rightmargin:%d' % f.width
+        return '?' + n
+
+    def post(f):
+        return {'OutputPHPFilter': 'php', 'OutputPythonFilter': 'python'}.get(type(f).__name__, '?' + type(f).__name__)
+
+    return 'pre=%s;grouping=%s;stmt=%s;post=%s' % (','.join(map(pre, stack.preprocess)), '1' if stack._grouping else '0',
+                                                   ','.join(map(st, stack.stmtprocess)),
+                                                   ','.join(map(post, stack.postprocess)))
+
+
+def impl_opt_line(case):
+    from sqlparse import formatter
+    from sqlparse.engine import FilterStack
+    try:
+        d = formatter.validate_options(dict(case))
+        stack = formatter.build_filter_stack(FilterStack(), d)
+    except Exception as e:
+        return 'err ' + type(e).__name__
+    return 'ok %s | %s' % (enc_dict(d), canon_stack(stack))
+
+
+def s_opt(ctx, cases):
+    """cases: option dicts (insertion order matters: it is the order of the **options of format())"""
+    outs = ctx.model.ask(['opt ' + enc_dict(c) for c in cases])
+    for c, mo in zip(cases, outs):
+        io = impl_opt_line(c)
+        ctx.stream('S-OPT', inputs=1, lines=1)
+        if io.strip() != mo.strip():
+            ctx.mismatch('S-OPT', repr(c), mo[:400], io[:400])
+
+
+# --- token filters ---------------------------------------------------------------------------
+def enc_toks(toks):
+    return ';'.join('%s=%s' % (ttname(t), hexs(v)) for t, v in toks)
+
+
+def make_tokfilter(spec):
+    from sqlparse import filters
+    kind, _, arg = spec.partition(':')
+    if kind == 'kw':
+        return filters.KeywordCaseFilter(arg)
+    if kind == 'id':
+        return filters.IdentifierCaseFilter(arg)
+    raise ValueError(spec)
+
+
+def s_tokfilter(ctx, inputs):
+    """inputs: (spec, tokens, filter object) with spec in the driver's syntax (`kw:upper`, `id:lower`,
+    `trunc:<width>:<tagged value>`), tokens a list of (ttype, value)"""
+    outs = ctx.model.ask(['tokfilter %s %s' % (spec, enc_toks(toks)) for spec, toks, _ in inputs])
+    for (spec, toks, flt), mo in zip(inputs, outs):
+        try:
+            io = 'ok ' + enc_toks(list(flt.process(iter(toks))))
+        except Exception as e:
+            io = 'err ' + type(e).__name__
+        ctx.stream('S-TOKF', inputs=1, lines=1)
+        if io.split() != mo.split():
+            ctx.mismatch('S-TOKF', repr((spec, [(ttname(t), v) for t, v in toks]))[:600], mo[:300], io[:300])
+
+
+# --- statement filters -----------------------------------------------------------------------
+def fsexp(tok):
+    """tree with the *cached* value of every group (same form as Sql.Driver.fsexp)"""
+    if tok.is_group:
+        return '( %s { %s%s}%s )' % (type(tok).__name__, hexs(tok.value), ' ' if tok.value else '',
+                                     ''.join(' ' + fsexp(c) for c in tok.tokens))
+    return '[ %s%s ]' % (ttname(tok.ttype), (' ' + hexs(tok.value)) if tok.value else '')
+
+
+def make_treefilter(name):
+    from sqlparse import filters
+    kind, _, arg = name.partition(':')
+    if kind == 'stripcomments':
+        return filters.StripCommentsFilter()
+    if kind == 'stripws':
+        return filters.StripWhitespaceFilter()
+    if kind == 'spaces':
+        return filters.SpacesAroundOperatorsFilter()
+    if kind == 'semicolon':
+        return filters.StripTrailingSemicolonFilter()
+    if kind in ('outpython', 'outphp'):
+        f = filters.OutputPythonFilter() if kind == 'outpython' else filters.OutputPHPFilter()
+        f.count = int(arg) - 1
+        return f
+    raise ValueError(name)
+
+
+def apply_treefilters(stmt, names):
+    for n in names.split(','):
+        f = make_treefilter(n)
+        r = f.process(stmt)
+        if n.startswith('out'):
+            stmt.tokens = list(stmt.tokens)       # the generator `_process` is consumed by the serializer in run()
+    return stmt
+
+
+def sexp_parse(words):
+    """S-expression words -> nested tuples ('g', class name, [kids]) / ('t', type path, [hex words])"""
+    pos = 0
+
+    def node():
+        nonlocal pos
+        w = words[pos]
+        if w == '[':
+            tt = words[pos + 1]
+            j = words.index(']', pos)
+            vals = words[pos + 2:j]
+            pos = j + 1
+            return ('t', tt, vals)
+        if w == '(':
+            cls = words[pos + 1]
+            pos += 2
+            kids = []
+            while words[pos] != ')':
+                kids.append(node())
+            pos += 1
+            return ('g', cls, kids)
+        raise ValueError('bad sexp at %d: %r' % (pos, w))
+
+    out = []
+    while pos < len(words):
+        out.append(node())
+    return out
+
+
+def sexp_unparse(n):
+    if n[0] == 't':
+        return '[ %s%s ]' % (n[1], ''.join(' ' + h for h in n[2]))
+    return '( %s%s )' % (n[1], ''.join(' ' + sexp_unparse(k) for k in n[2]))
+
+
+def sexp_build(n):
+    """nested tuples -> real sqlparse objects, built bottom-up (so every cached group value is fresh)"""
+    from sqlparse import sql, tokens
+    if n[0] == 't':
+        tt = tokens.Token
+        if n[1] != 'Token':
+            for part in n[1].split('.'):
+                tt = getattr(tt, part)
+        return sql.Token(tt, ''.join(chr(int(h, 16)) for h in n[2]))
+    return getattr(sql, n[1])([sexp_build(k) for k in n[2]])
+
+
+def s_treefilter(ctx, inputs, filtername, fuel=100000, stream=None, trees=()):
+    """inputs: SQL texts; every statement of `sqlparse.parse(text)` is one case.  `filtername` may be a
+    comma-separated chain (the model carries the cached group values from one filter to the next).
+    trees: additional cases given as S-expressions of one statement (e.g. mutated trees that `parse` cannot
+    produce, to reach the IndexError paths); the real objects are rebuilt from them."""
+    import sqlparse
+    name = stream or ('S-TREEF[%s]' % filtername)
+    cases = []
+    for t in trees:
+        st = sexp_build(sexp_parse(t.split())[0])
+        before = sexp(st)
+        try:
+            apply_treefilters(st, filtername)
+            io = 'ok ' + fsexp(st)
+        except Exception as e:
+            io = 'err ' + type(e).__name__
+        cases.append((t, before, io))
+    for s in inputs:
+        try:
+            stmts = sqlparse.parse(s)
+        except Exception:
+            ctx.count('treefilter.parse-failed')
+            continue
+        for st in stmts:
+            before = sexp(st)
+            try:
+                apply_treefilters(st, filtername)
+                io = 'ok ' + fsexp(st)
+            except Exception as e:
+                io = 'err ' + type(e).__name__
+            cases.append((s, before, io))
+    outs = ctx.model.ask(['treefilter %s %d %s' % (filtername, fuel, b) for _, b, _ in cases])
+    for (s, before, io), mo in zip(cases, outs):
+        ctx.stream(name, inputs=1, lines=1)
+        if io.split() != mo.split():
+            a, b = mo.split(), io.split()
+            k = next((j for j, (x, y) in enumerate(zip(a, b)) if x != y), min(len(a), len(b)))
+            ctx.mismatch(name, s, ' '.join(a[max(0, k - 8):k + 14]), ' '.join(b[max(0, k - 8):k + 14]), before=before[:2000])
+    return len(cases)
+
+
+# --- serializer ------------------------------------------------------------------------------
+def s_serialize(ctx, inputs, raw=()):
+    """inputs: SQL texts (each parsed statement is serialized); raw: arbitrary strings given to the serializer as is"""
+    import sqlparse
+    from sqlparse import filters
+    ser = filters.SerializerUnicode()
+    cases = []
+    for s in inputs:
+        try:
+            stmts = sqlparse.parse(s)
+        except Exception:
+            continue
+        for st in stmts:
+            cases.append((s, 'serialize ' + sexp(st), 'ok ' + hexs(ser.process(st))))
+    for s in raw:
+        cases.append((s, 'sertext ' + hexs(s), 'ok ' + hexs(ser.process(s))))
+    outs = ctx.model.ask([c[1] for c in cases])
+    for (s, _, io), mo in zip(cases, outs):
+        ctx.stream('S-SER', inputs=1, lines=1)
+        if io.split() != mo.split():
+            ctx.mismatch('S-SER', s, mo[:300], io[:300])
+    return len(cases)
+
+
+# --- str.upper / lower / capitalize ----------------------------------------------------------
+def s_caseconv(ctx, strings):
+    reqs = [(c, s) for s in strings for c in ('upper', 'lower', 'capitalize')]
+    outs = ctx.model.ask(['caseconv %s %s' % (c, hexs(s)) for c, s in reqs])
+    for (c, s), mo in zip(reqs, outs):
+        io = 'ok ' + hexs(getattr(str, c)(s))
+        ctx.stream('S-CASE', inputs=1, lines=1)
+        if io.split() != mo.split():
+            ctx.mismatch('S-CASE', (c, s), mo[:200], io[:200])
+# <<< formatting side
